@@ -15,6 +15,35 @@ func (e *Engine) freshError(st *State, t types.Type) Val {
 	return Val{K: KIface, Ty: t, T: p, X: []string{e.P.reg.tagOf(externErrType)}}
 }
 
+// causeOf models github.com/pkg/errors.Cause: an error whose dynamic type is one of the module's own
+// error types without a Cause() method is its own cause; for every other error the cause is the
+// uninterpreted pair (errcause.p, errcause.t), which WithStack/New constrain.
+func (e *Engine) causeOf(a Val) Val {
+	e.declFun("errcause.p", "(Int Int) Int")
+	e.declFun("errcause.t", "(Int Int) Int")
+	p := "(errcause.p " + a.T + " " + a.X[0] + ")"
+	t := "(errcause.t " + a.T + " " + a.X[0] + ")"
+	var own []string
+	for _, it := range e.P.implementers(a.Ty) {
+		ms := e.P.prog.MethodSets.MethodSet(it)
+		causer := false
+		for i := 0; i < ms.Len(); i++ {
+			if n := ms.At(i).Obj().Name(); n == "Cause" || n == "Unwrap" {
+				causer = true
+			}
+		}
+		if !causer {
+			own = append(own, eq(a.X[0], e.P.reg.tagOf(it)))
+		}
+	}
+	if len(own) > 0 {
+		c := or(own...)
+		p = "(ite " + c + " " + a.T + " " + p + ")"
+		t = "(ite " + c + " " + a.X[0] + " " + t + ")"
+	}
+	return Val{K: KIface, Ty: a.Ty, T: p, X: []string{t}}
+}
+
 var externErrType = types.NewNamed(types.NewTypeName(0, nil, "extern-error", nil), types.NewStruct(nil, nil), nil)
 
 func (e *Engine) externModel(st *State, res ssa.Value, callee *ssa.Function, args []Val, c *ssa.CallCommon) bool {
@@ -43,8 +72,9 @@ func (e *Engine) externModel(st *State, res ssa.Value, callee *ssa.Function, arg
 		e.declFun("errcause.p", "(Int Int) Int")
 		e.declFun("errcause.t", "(Int Int) Int")
 		// cause(WithStack(x)) == cause(x)
-		st.assume(eq("(errcause.p "+ne.T+" "+ne.X[0]+")", "(errcause.p "+a.T+" "+a.X[0]+")"))
-		st.assume(eq("(errcause.t "+ne.T+" "+ne.X[0]+")", "(errcause.t "+a.T+" "+a.X[0]+")"))
+		ca := e.causeOf(a)
+		st.assume(eq("(errcause.p "+ne.T+" "+ne.X[0]+")", ca.T))
+		st.assume(eq("(errcause.t "+ne.T+" "+ne.X[0]+")", ca.X[0]))
 		e.bindResult(st, res, e.iteVal(eq(a.X[0], "0"), e.zeroVal(rt), ne))
 		return true
 	case "github.com/pkg/errors.Cause":
@@ -54,7 +84,8 @@ func (e *Engine) externModel(st *State, res ssa.Value, callee *ssa.Function, arg
 		}
 		e.declFun("errcause.p", "(Int Int) Int")
 		e.declFun("errcause.t", "(Int Int) Int")
-		r := Val{K: KIface, Ty: rt, T: "(errcause.p " + a.T + " " + a.X[0] + ")", X: []string{"(errcause.t " + a.T + " " + a.X[0] + ")"}}
+		r := e.causeOf(a)
+		r.Ty = rt
 		st.assume(eq(eq(r.X[0], "0"), eq(a.X[0], "0")))
 		e.typeInv(st, r)
 		e.bindResult(st, res, r)
